@@ -1,4 +1,6 @@
 import Sx.Lemmas.RxReady
+import Sx.Lemmas.RxCovers
+import Sx.Sys
 /-
   C03 — FSK/OOK reception delivers each packet exactly once, byte-exact.
 
@@ -260,6 +262,63 @@ theorem C03_session (fuel : Nat) (hfuel : 64 ≤ fuel) (hdr P : List UInt8) (h :
     · rw [hopen.1] at he; cases he
     · have := hopen.2 hov; rw [hrd] at this; cases this
 
+/-- the world at the start of an operation without events or faults -/
+def opWorldRx (w : World) (k : Cache) : World :=
+  { w with xfer := 0, sched := [], faults := [], bus := [], cbs := [], cache := k }
+
+/-! ### on the chip model (uncached build; the cached one by C02) -/
+
+theorem rx_api_irq (cap fuel : Nat) (hfuel : 64 ≤ fuel) (hdr P : List UInt8) (h : Handle) (g : RxG) (hv : RxInv hdr P h g)
+    (hmod : h.activeModem = Gen.SX127x_MODULATION_FSK ∨ h.activeModem = Gen.SX127x_MODULATION_OOK) :
+    (Api.prog cap fuel .irq h).gwp rxE g (fun g' rh => RxPost hdr P g g' rh.2) := by
+  show DM.gwp rxE (do let _ ← DM.attempt (handleInterrupt fuel); pure Out.none) h g (fun g' _ h' => RxPost hdr P g g' h')
+  rw [gwp_bind, gwp_attempt]
+  unfold handleInterrupt
+  rw [gwp_bind, gwp_getH]
+  dsimp only
+  have hnl : ¬h.activeModem = Gen.SX127x_MODULATION_LORA := by
+    rcases hmod with e | e <;> rw [e] <;> decide
+  rw [if_neg hnl, if_pos hmod]
+  exact gwp_mono rxE _ _ _ _ _ (fun g' r h' hq => hq) (rx_invocation fuel hfuel hdr P h g hv)
+
+/-- **C03 on the chip model.** One handler invocation of the uncached interpreter (no events
+    or faults inside it) on a chip that is receiving the frame, related to the ghost state by
+    `RxChip` (FIFO content, stored PayloadReady/CrcOk, threshold and configuration registers):
+    the outcome is the one `rx_invocation` describes, and unless the callback has run the chip
+    is again related to the ghost state.  The arrival of bytes and of the end of the packet
+    between invocations are `env_rxByte` and `env_rxEnd`. -/
+theorem C03_step_on_chip (hdr P : List UInt8) (c : SysCfg) (hc : c.cached = false) (hfuel : 64 ≤ c.fuel) (s : Sys) (h : Handle) (g : RxG)
+    (hh : s.handle = some h) (hv : RxInv hdr P h g)
+    (hmod : h.activeModem = Gen.SX127x_MODULATION_FSK ∨ h.activeModem = Gen.SX127x_MODULATION_OOK)
+    (hchip : RxChip s.world.chip g) :
+    match s.step c (.api .irq [] []) with
+    | (s', .ret _ _ _) => ∃ h' g', s'.handle = some h' ∧ RxPost hdr P g g' h' ∧ (g'.ended = false → RxChip s'.world.chip g')
+    | (_, .ub _) => True
+    | (_, _) => False := by
+  unfold Sys.step
+  dsimp only
+  rw [if_neg (by simp [hh])]
+  have hw0 : rxAbs (opWorldRx s.world s.world.cache) g := Or.inr (Or.inr ⟨hchip, rfl, rfl⟩)
+  simp only [hh, Option.getD_some]
+  unfold exec
+  generalize hout : execG c.toCfg.cached c.toCfg.onCb (Api.prog c.cap c.fuel Api.irq h) _ = out
+  have hex : OutcomeP rxAbs (fun g' rh => RxPost hdr P g g' rh.2) out := by
+    rw [← hout]
+    have hcc : c.toCfg.cached = false := hc
+    rw [hcc]
+    exact execG_gwp' rxE false c.toCfg.onCb rxAbs (rx_covers _)
+      (Api.prog c.cap c.fuel .irq h) g _ (rx_api_irq c.cap c.fuel hfuel hdr P h g hv hmod) _ hw0
+  cases out with
+  | ub u w => trivial
+  | done rh w =>
+    obtain ⟨r, h'⟩ := rh
+    obtain ⟨g', hab, hpost⟩ := hex
+    refine ⟨h', g', rfl, hpost, fun hne => ?_⟩
+    have hw := rxAbs_live ⟨hpost.1, hne⟩ hab
+    show RxChip (w.sched.foldl _ w.chip) g'
+    rw [hw.nosched]
+    exact hw.chip
+
 /-- the start of a packet: the handle in its reset state (as `create`, a delivery or a drop
     leave it), the FIFO empty, the whole frame still on the air -/
 theorem rx_start (hdr P : List UInt8) (h : Handle) (g : RxG) (hc : RxCfg hdr P h g)
@@ -292,6 +351,7 @@ example : rxR { pending := [2, 7, 9], cfg1 := 0x98 } (.rread 0x3f) (.u8 (.ok 0x0
   unfold rxR
   simp only [Bool.false_eq_true, or_self, ↓reduceIte]
   refine ⟨trivial, 2, false, ⟨by decide, by decide⟩, ?_⟩
+  unfold rxAnswer
   simp only [↓reduceIte]
   refine ⟨rfl, ?_⟩
   unfold RxFlagsOk
